@@ -122,7 +122,7 @@ pub fn view(a: &Authorizer, label: &str) -> Result<serde_json::Value, String> {
 pub fn run(tier: Tier) {
     let ctx = Ctx::new("C13", tier);
     // tokens: E-hist states over contents with their own symbols / keys
-    let contents: &'static [&'static str] = &["b1", "b3", "b4"];
+    let contents: &'static [&'static str] = &["b1", "b3", "b4", "b8"];
     let tp: &'static [&'static str] = &["t0", "t2"];
     let depth = tier.pick(3, 4);
     let tokens: Mutex<Vec<(Vec<Op>, Biscuit)>> = Mutex::new(vec![]);
